@@ -22,6 +22,8 @@ func main() {
 		verify(os.Args[2:])
 	case "check":
 		os.Exit(checkMain(os.Args[2:]))
+	case "mutant":
+		os.Exit(mutantMain(os.Args[2:]))
 	case "selftest":
 		os.Exit(selftestMain(os.Args[2:]))
 	default:
